@@ -22,7 +22,7 @@ func c19(c *h.Ctx) {
 	runWorkers(c, workerOpts{Mode: "deco", Race: true, Shards: 8, Timeout: 15 * time.Minute, Anchors: anchors})
 
 	// formats x outcomes, library level (child per case)
-	outcomes := []string{"success", "fail", "allowed-failure", "skipped", "before-fails", "both-streams"}
+	outcomes := []string{"success", "fail", "allowed-failure", "skipped", "before-fails", "both-streams", "then-success", "then-fail", "then-skipped", "then-before-fails"}
 	formats := []string{"raw", "prefixed", "cockpit"}
 	results := map[string]map[string]string{}
 	type job struct{ f, o string }
@@ -101,10 +101,16 @@ func c19(c *h.Ctx) {
 			{K: "up-fails", V: gen.OM{{K: "command", V: []interface{}{"printf 'never\\n'"}}, {K: "context", V: "badup"}}},
 			{K: "both-streams", V: gen.OM{{K: "command", V: []interface{}{"sh -c 'i=0; while [ $i -lt 1500 ]; do echo out$i; echo err$i >&2; i=$((i+1)); done'"}}}},
 		}},
-		{K: "pipelines", V: gen.OM{{K: "mixed", V: []interface{}{gen.OM{{K: "task", V: "success"}}, gen.OM{{K: "task", V: "skipped"}}, gen.OM{{K: "task", V: "before-fails"}, {K: "allow_failure", V: true}}, gen.OM{{K: "task", V: "allowed-failure"}}}}}},
+		{K: "pipelines", V: gen.OM{{K: "mixed", V: []interface{}{gen.OM{{K: "task", V: "success"}}, gen.OM{{K: "task", V: "skipped"}}, gen.OM{{K: "task", V: "before-fails"}, {K: "allow_failure", V: true}}, gen.OM{{K: "task", V: "allowed-failure"}}}},
+			// the same outcomes one after the other: a task that never starts (skipped, failing before-hook) finishes
+			// after another task has really run in this process
+			{K: "chained", V: []interface{}{gen.OM{{K: "task", V: "success"}}, gen.OM{{K: "task", V: "skipped"}, {K: "depends_on", V: []interface{}{"success"}}},
+				gen.OM{{K: "task", V: "before-fails"}, {K: "allow_failure", V: true}, {K: "depends_on", V: []interface{}{"skipped"}}},
+				gen.OM{{K: "task", V: "allowed-failure"}, {K: "depends_on", V: []interface{}{"before-fails"}}},
+				gen.OM{{K: "name", V: "again"}, {K: "task", V: "success"}, {K: "depends_on", V: []interface{}{"allowed-failure"}}}}}}},
 	}
 	h.WriteFile(dir+"/tasks.yaml", gen.YAML(cfg))
-	targets := []string{"success", "fail", "allowed-failure", "skipped", "before-fails", "up-fails", "both-streams", "mixed"}
+	targets := []string{"success", "fail", "allowed-failure", "skipped", "before-fails", "up-fails", "both-streams", "mixed", "chained"}
 	exits := map[string]map[string]int{}
 	type cj struct{ f, t string }
 	var cjobs []cj
